@@ -289,6 +289,177 @@ def flatten_state(e, s, sep):
     return out
 
 
+# ----------------------------------------------------------------------------------------
+# roundtrip_sparse (Proofs/C01Sparse.lean): spec `prS` and hypothesis `OkS`, transcribed from
+# Flatland/Spec/C01Sparse.lean independently of the Lean runner, on element STATES
+
+_NORM_CACHE = {}
+
+
+def _norm(kind, text):
+    key = (repr(sorted(kind.items(), key=str)) if isinstance(kind, dict) else repr(kind), text)
+    if key not in _NORM_CACHE:
+        _NORM_CACHE[key] = fl.norm_text(kind, text)
+    return _NORM_CACHE[key]
+
+
+def wf_schema(s):
+    """Lean `wf`: mapping fields are named and pairwise distinct."""
+    for x in fl.walk_schema(s):
+        if x["t"] in ("dict", "compound"):
+            names = [f["name"] for f in x["fields"]]
+            if any(n is None for n in names) or len(set(names)) != len(names):
+                return False
+    return True
+
+
+def root_ok(s):
+    """Lean `rootOK`."""
+    if s["t"] in ("leaf", "joined", "compound"):
+        return s["name"] is not None
+    if s["t"] == "array":
+        return s["name"] is not None or s["member"]["name"] is not None
+    return True
+
+
+def ok_state(e, s, kinds, maxdigits):
+    """Lean `OkS` / `okSB`: conforming, settled state — the members of a mapping are any subset of the
+    declared fields in any order."""
+    t = s["t"]
+    if t == "leaf":
+        return "leaf" in e and _norm(kinds[s["k"]], e["leaf"])[0] == e["leaf"]
+    if t == "joined":
+        if "joined" not in e:
+            return False
+        u, ms = e["joined"]
+        nu, members = _norm(kinds[s["k"]], u)
+        if nu != u:
+            return False
+        texts = [m.get("leaf") for m in ms]
+        return (members is not None and texts == list(members)) or (u == "" and ms == [])
+    if t == "array":
+        m = s["member"]
+        if "array" not in e or m["t"] != "leaf":
+            return False
+        return all("leaf" in x and _norm(kinds[m["k"]], x["leaf"])[0] == x["leaf"] for x in e["array"])
+    if t in ("dict", "compound"):
+        if "dict" not in e:
+            return False
+        keys = [k for k, _ in e["dict"]]
+        if len(set(keys)) != len(keys):
+            return False
+        for k, v in e["dict"]:
+            if not any(f["name"] == k and ok_state(v, f, kinds, maxdigits) for f in s["fields"]):
+                return False
+        return True
+    if t == "list":
+        if "list" not in e:
+            return False
+        ms = e["list"]
+        if len(ms) > s["max"] or (ms and len(str(len(ms) - 1)) > maxdigits):
+            return False
+        return all(ok_state(m, s["member"], kinds, maxdigits) for m in ms)
+    return False
+
+
+def _keep(u, v):
+    return (not u) or v != ""
+
+
+def emits_state(e, s, u):
+    """Lean `emitsB`: the state still emits a pair when empty values are dropped (`u`)."""
+    return any(_keep(u, v) for _, v in flatten_state(e, s, ""))
+
+
+def is_req(s, f):
+    """Lean `isReq`: the fields a fresh mapping is created with."""
+    if s["t"] == "compound" or s["mode"] == "dense":
+        return True
+    if s["mode"] == "sparse":
+        return False
+    return not f.get("opt")
+
+
+def prs_state(e, s, sep, u, kinds):
+    """Lean `prS`: what from_flat(flatten(e)) rebuilds — the documented pruning plus the sparse
+    normalisation (minimum members first, then the other touched fields, in declaration order)."""
+    t = s["t"]
+    if t == "leaf":
+        return e
+    if t == "joined":
+        text = e["joined"][0]
+        if u and text == "":
+            return {"joined": ["", []]}
+        members = _norm(kinds[s["k"]], text)[1] or []
+        return {"joined": [text, [{"leaf": m} for m in members]]}
+    if t == "array":
+        m = s["member"]
+        own = s["prune"] and not (s["name"] is None and m["name"] is None)
+        uu = u or own
+        return {"array": [x for x in e["array"] if emits_state(x, m, uu)]}
+    if t in ("dict", "compound"):
+        anon = {"t": "dict", "name": None, "opt": False, "mode": "sparse", "fields": s["fields"]}
+        keys = [k for k, v in flatten_state(e, anon, sep) if _keep(u, v)]
+        held = dict((k, v) for k, v in e["dict"])
+        first, second = [], []
+        for f in s["fields"]:
+            nf = f["name"]
+            touched = any(k.startswith(nf) for k in keys)
+            val = prs_state(held[nf], f, sep, u, kinds) if nf in held else blank_state(f)
+            if is_req(s, f):
+                first.append([nf, val if touched else blank_state(f)])
+            elif touched:
+                second.append([nf, val])
+        return {"dict": first + second}
+    if t == "list":
+        ms, m = e["list"], s["member"]
+        if s["prune"]:
+            return {"list": [prs_state(x, m, sep, True, kinds) for x in ms if emits_state(x, m, True)]}
+        keep = list(ms)
+        while keep and not emits_state(keep[-1], m, u):
+            keep.pop()
+        return {"list": [prs_state(x, m, sep, u, kinds) if emits_state(x, m, u) else blank_state(m) for x in keep]}
+    return e
+
+
+def sparse_normal(e, s):
+    """Lean `sparseNormal`: every mapping holds its members minimum-first, then in declaration order."""
+    t = s["t"]
+    if t in ("dict", "compound") and "dict" in e:
+        fields = {f["name"]: f for f in s["fields"]}
+        order = {f["name"]: i for i, f in enumerate(s["fields"])}
+        n = len(s["fields"])
+        ranks = []
+        for k, v in e["dict"]:
+            if k not in fields:
+                return False
+            ranks.append((0 if is_req(s, fields[k]) else n + 1) + order[k])
+            if not sparse_normal(v, fields[k]):
+                return False
+        return all(a < b for a, b in zip(ranks, ranks[1:]))
+    if t == "list" and "list" in e:
+        return all(sparse_normal(m, s["member"]) for m in e["list"])
+    return True
+
+
+def _walk_states(e, s):
+    yield e, s
+    t = s["t"]
+    if t in ("dict", "compound") and "dict" in e:
+        fields = {f["name"]: f for f in s["fields"]}
+        for k, v in e["dict"]:
+            if k in fields:
+                yield from _walk_states(v, fields[k])
+    elif t == "list" and "list" in e:
+        for m in e["list"]:
+            yield from _walk_states(m, s["member"])
+
+
+def thm_hyp(s0, schema, kinds, maxdigits):
+    """The decidable hypotheses of `roundtrip_sparse` (everything but SepSafe)."""
+    return wf_schema(schema) and root_ok(schema) and ok_state(s0, schema, kinds, maxdigits)
+
+
 def force_max(s):
     for x in fl.walk_schema(s):
         if x["t"] == "list":
@@ -408,9 +579,15 @@ class C01(Property):
         schema, kinds = case["schema"], case["kinds"]
         texts = [v for _, v in f0] + [v for _, v in f1]
         comps = fl.observed_compounds(el, schema) + fl.observed_compounds(el1, schema) + fl.observed_compounds(el2, schema)
+        s0 = fl.extract(el, schema)
+        env = fl.make_env(kinds, texts, comps)
+        hyp = thm_hyp(s0, schema, kinds, env["maxdigits"])
+        safe = fl.sep_safe(case["sep"], fl.schema_names(schema))
         return {"flatten": [list(p) for p in f0], "rt_elem": fl.extract(el1, schema),
                 "rt_flatten": [list(p) for p in f1], "rt2_flatten": [list(p) for p in f2],
-                "_elem": fl.extract(el, schema), "_env": fl.make_env(kinds, texts, comps)}
+                # the decidable hypotheses of roundtrip_sparse, recomputed by the Lean runner (okSB/wfS/rootOK)
+                "thm_hyp": hyp,
+                "_sep_safe": safe, "_elem": s0, "_env": env}
 
     def has_model(self, case):
         return not fl.digit_sep(case["sep"])
@@ -418,14 +595,25 @@ class C01(Property):
     def model_input(self, case, obs):
         if not obs or "_elem" not in obs:
             return {"schema": case["schema"], "sep": case["sep"], "elem": {"leaf": ""}, "env": fl.make_env([], [], [])}
-        return {"schema": case["schema"], "sep": case["sep"], "elem": obs["_elem"], "env": obs["_env"]}
+        return {"schema": case["schema"], "sep": case["sep"], "elem": obs["_elem"], "env": obs["_env"],
+                "sep_safe": bool(obs.get("_sep_safe"))}
 
     def compare(self, impl_obs, model_obs):
         if "skip" in impl_obs:
             return None
         if "raise" in impl_obs:
             return "implementation raised %s" % impl_obs["raise"]
-        return super().compare(impl_obs, model_obs)
+        r = super().compare(impl_obs, model_obs)
+        if r is not None:
+            return r
+        # roundtrip_sparse tied to the code: whenever its hypotheses hold, the tree the REAL
+        # from_flat(flatten(e)) builds is the spec `prS e` the Lean runner computes
+        if impl_obs.get("thm_hyp") and impl_obs.get("_sep_safe") and isinstance(model_obs, dict) and "prs_elem" in model_obs:
+            from harness.core import canon
+            if canon(model_obs["prs_elem"]) != canon(impl_obs["rt_elem"]):
+                return "roundtrip_sparse: real from_flat(flatten(e))=%s but Lean prS e=%s" % (
+                    canon(impl_obs["rt_elem"])[:300], canon(model_obs["prs_elem"])[:300])
+        return None
 
     def oracle(self, case):
         schema, kinds, sep = case["schema"], case["kinds"], case["sep"]
@@ -452,6 +640,15 @@ class C01(Property):
                               "observed": [list(p) for p in f1], "state": s0, "pruned_state": expect, "rt_state": s1})
         if f2 != f1:
             fails.append({"clause": "second-trip-stable", "expected": [list(p) for p in f1], "observed": [list(p) for p in f2]})
+        # roundtrip_sparse, stated on the real code: under its hypotheses the rebuilt TREE is prS(e) — SparseDicts
+        # included — the second trip does not change the flat output, and the rebuilt tree is in normal order
+        maxd = __import__("sys").get_int_max_str_digits()
+        if thm_hyp(s0, schema, kinds, maxd) and fl.sep_safe(sep, fl.schema_names(schema)):
+            want_tree = prs_state(s0, schema, sep, False, kinds)
+            if s1 != want_tree:
+                fails.append({"clause": "sparse-exact-tree", "expected": want_tree, "observed": s1, "state": s0})
+            elif not sparse_normal(s1, schema):
+                fails.append({"clause": "sparse-rebuilt-normal", "observed": s1})
         exact = fl.EXACT_TYPES | {"DateMember"}
         if not pruned and not fails:
             v0 = Counter((k, v) for k, v, kk, _ in leaf_values(el, schema, sep) if kinds[kk]["type"] in exact)
@@ -582,6 +779,39 @@ class C01(Property):
             t.append("has-" + s["t"] + ("-prune" if s.get("prune") else ""))
         for k in case["kinds"]:
             t.append("kind-" + k["type"])
+        schema, kinds = case["schema"], case["kinds"]
+        sparse = any(x["t"] == "dict" and x["mode"] != "dense" for x in fl.walk_schema(schema))
+        s0 = obs.get("_elem")
+        if s0 is not None:
+            applies = bool(obs.get("thm_hyp")) and bool(obs.get("_sep_safe"))
+            if applies:
+                t.append("thm-sparse-applies")
+                if sparse:
+                    t.append("thm-sparse-applies+has-sparse")
+                    holds = [m for e, sc in _walk_states(s0, schema) if sc["t"] == "dict" and sc["mode"] != "dense" for m in [e]]
+                    if any(len(m["dict"]) for m in holds):
+                        t.append("thm-sparse-applies+sparse-populated")
+                    # cross-check of the recorded class predicates against the exact spec
+                    want = prs_state(s0, schema, case["sep"], False, kinds)
+                    pred_d = order_normal(prune_state(s0, schema, False), schema)
+                    if want == pred_d:
+                        t.append("kf-d-prediction=prS")
+                    elif (strip_blank_sparse(drop_pairless_tail(pred_d, schema), schema)
+                          == strip_blank_sparse(drop_pairless_tail(order_normal(want, schema), schema), schema)):
+                        t.append("kf-e-normalised-prediction~prS")
+                    elif flatten_state(pred_d, schema, case["sep"]) == flatten_state(want, schema, case["sep"]):
+                        # same flat output; the trees differ in members that are never flattened (a fresh
+                        # JoinedString comes back with the members its empty text splits into)
+                        t.append("kf-prediction~prS-same-flatten")
+                    else:
+                        t.append("kf-predictions-differ-from-prS")
+                    t.append("sparse-in-normal-order" if sparse_normal(s0, schema) else "sparse-reordered-by-trip")
+            else:
+                why = ("sep-not-safe" if not obs.get("_sep_safe") else
+                       "not-wf" if not wf_schema(schema) else "root-unnamed" if not root_ok(schema) else "state-unsettled-or-over-ceiling")
+                t.append("thm-sparse-na:" + why)
+                if sparse:
+                    t.append("thm-sparse-na+has-sparse")
         return list(dict.fromkeys(t))
 
     def shrink_candidates(self, case):
